@@ -6,6 +6,8 @@ import (
 	"fmt"
 	"path/filepath"
 	"regexp"
+	"slices"
+	"sort"
 	"strings"
 	"unicode"
 
@@ -65,6 +67,20 @@ func HarnessSelf_models() {
 	}
 	out := interpRE.ReplaceAllStringFunc(s, func(m string) string { return "<" + m + ">" })
 	chk("Regexp", out == interpRE.ReplaceAllStringFunc(c, func(m string) string { return "<" + m + ">" }))
+	sp, cp := strings.Split(s, "."), strings.Split(c, ".")
+	chk("slices.Contains", slices.Contains(sp, "b") == slices.Contains(cp, "b"))
+	chk("slices.Index", slices.Index(sp, "c") == slices.Index(cp, "c"))
+	sort.Slice(sp, func(i, j int) bool { return sp[i] > sp[j] })
+	sort.Slice(cp, func(i, j int) bool { return cp[i] > cp[j] })
+	chk("sort.Slice", strings.Join(sp, "|") == strings.Join(cp, "|"))
+	slices.Sort(sp)
+	slices.Sort(cp)
+	chk("slices.Sort", strings.Join(sp, "|") == strings.Join(cp, "|"))
+	slices.Reverse(sp)
+	slices.Reverse(cp)
+	chk("slices.Equal", slices.Equal(sp, cp))
+	chk("Sprint", fmt.Sprint(s, 1, 2, "x", s) == fmt.Sprint(c, 1, 2, "x", c))
+	chk("Sprintln", fmt.Sprintln(s, 1) == fmt.Sprintln(c, 1))
 	for i, re := range selfREs {
 		id := fmt.Sprintf("re%d.", i)
 		chk(id+"Match", re.MatchString(s) == re.MatchString(c))
